@@ -33,6 +33,7 @@ import (
 	"github.com/tink-crypto/tink-go/v2/aead/xchacha20poly1305"
 	"github.com/tink-crypto/tink-go/v2/daead"
 	"github.com/tink-crypto/tink-go/v2/daead/aessiv"
+	"github.com/tink-crypto/tink-go/v2/internal/config/keyderivationconfig"
 	"github.com/tink-crypto/tink-go/v2/internal/internalapi"
 	"github.com/tink-crypto/tink-go/v2/internal/protoserialization"
 	"github.com/tink-crypto/tink-go/v2/key"
@@ -547,9 +548,12 @@ func TestDeriveKeyset(t *testing.T) {
 		if diff := sameSnapshot(first, third); diff != "" {
 			rt.Fatalf("%v\nDeriveKeyset(salt) changed after DeriveKeyset(%x): %s\n  first:%v\n  later:%v", c, salt2, diff, first, third)
 		}
-		d2, err := keyderivation.New(h)
+		// the second deriver object comes from the other public factory, NewWithConfig with the V0
+		// configuration (same PRF-based deriver, constructed without the global registry)
+		v0 := keyderivationconfig.V0()
+		d2, err := keyderivation.NewWithConfig(h, &v0)
 		if err != nil {
-			rt.Fatalf("%v\nsecond keyderivation.New: %v", c, err)
+			rt.Fatalf("%v\nkeyderivation.NewWithConfig(V0): %v", c, err)
 		}
 		fresh := derive(rt, c, d2, c.salt, "second deriver object")
 		if diff := sameSnapshot(first, fresh); diff != "" {
